@@ -11,6 +11,19 @@ use verif_harness::l2::{all_specs, corpus, rt};
 use verif_harness::Rng;
 
 static WRONG: AtomicU64 = AtomicU64::new(0);
+static PANICS: std::sync::Mutex<Vec<String>> = std::sync::Mutex::new(Vec::new());
+
+/// C16 under concurrency: a panic of a cached call / invalidation on any thread is an observation, not a crash of the
+/// harness.  The hook records message and location; `join_all` reports one `HP|…` line per panicked thread.
+fn join_all(hs: &mut Vec<std::thread::JoinHandle<()>>, phase: &str, fi: usize, name: &str) {
+    for h in hs.drain(..) {
+        if h.join().is_err() {
+            let msg = PANICS.lock().map(|mut v| v.pop().unwrap_or_default()).unwrap_or_default();
+            let hexmsg: String = msg.bytes().map(|b| format!("{:02x}", b)).collect();
+            println!("HP|{}|{}|{}|{}", fi, name, phase, hexmsg);
+        }
+    }
+}
 
 /// the value of a call is a function of its ARGUMENTS (two argument indices that render to one key — a function
 /// without arguments — must produce one value)
@@ -25,6 +38,14 @@ fn det_n(fi: usize, j: usize) -> u64 {
 
 fn main() {
     let args: Vec<String> = std::env::args().collect();
+    std::panic::set_hook(Box::new(|info| {
+        let loc = info.location().map(|l| format!("{}:{}", l.file(), l.line())).unwrap_or_default();
+        let msg = info.payload().downcast_ref::<&str>().map(|s| s.to_string())
+            .or_else(|| info.payload().downcast_ref::<String>().cloned()).unwrap_or_else(|| "panic".to_string());
+        if let Ok(mut v) = PANICS.lock() {
+            v.push(format!("{} at {}", msg, loc));
+        }
+    }));
     let seed: u64 = args[1].parse().unwrap();
     let threads: usize = args[2].parse().unwrap();
     let rounds: usize = args[3].parse().unwrap();
@@ -76,9 +97,7 @@ fn main() {
                 }
             }));
         }
-        for h in hs {
-            h.join().unwrap();
-        }
+        join_all(&mut hs, "stored-results", fi, &sp.name);
         let e1 = rt::EXEC.load(Ordering::SeqCst);
         println!("H|{}|{}|{}|{}|{}", fi, sp.name, threads * rounds, e1 - e0, WRONG.load(Ordering::SeqCst));
     }
@@ -157,11 +176,9 @@ fn main() {
                 }
             })
         };
-        for h in hs {
-            h.join().unwrap();
-        }
+        join_all(&mut hs, "calls-vs-invalidations", fi, &sp.name);
         stop.store(true, Ordering::SeqCst);
-        inv.join().unwrap();
+        join_all(&mut vec![inv], "invalidator", fi, &sp.name);
         let e1 = rt::EXEC.load(Ordering::SeqCst);
         let st = verif_harness::l2::stats_of(&sp.name);
         // quiescent state of the cache: every stored key tracked by the queue (async: and vice versa), no duplicate
@@ -227,9 +244,7 @@ fn main() {
                     }
                 }));
             }
-            for h in hs.drain(..) {
-                h.join().unwrap();
-            }
+            join_all(&mut hs, "memory-aware-stores", fi, &sp.name);
             if let Some(d) = cachelito_core::verif::dump_global(&sp.name) {
                 let total: usize = d.entries.iter().map(|e| e.2).sum();
                 if total > m {
